@@ -143,6 +143,30 @@ def nucleation_relations():
     return ev
 
 
+def limit_relations():
+    """energy ratio k exactly AT the limit of each grain-boundary type site (the first value that is not admissible: the message of the
+    validation says "must be below"): the object either refuses it or returns non-negative factors and a critical radius >= Rmin"""
+    ev = [{"e": "init"}]
+    limits = {"grain boundaries": 1.0, "grain edges": math.sqrt(3) / 2, "grain corners": math.sqrt(2.0 / 3.0)}
+    for site, kmax in limits.items():
+        for gamma in (0.15, 0.2):
+            for frac, want_ok in ((1.0, None), (0.999, True), (0.99, True), (1.0 + 1e-9, False)):      # (the factors lose all digits within ~1e-6 of the limit: not probed)
+                name = "%s gamma=%g k=%.10g*limit" % (site, gamma, frac)
+                try:
+                    n = NucleationBarrierParameters(site=site, gamma=gamma, gbEnergy=2 * gamma * kmax * frac)
+                    vals = [float(getattr(n, f)) for f in ("areaFactor", "volumeFactor", "gbRemoval", "areaRemoval")]
+                    rc = float(n.Rcrit(1e8))
+                    ok = all(math.isfinite(v) and v >= 0 for v in vals) and math.isfinite(rc) and rc >= 0
+                    outcome = "accepted-valid" if ok else "accepted-invalid(%s, Rcrit=%g)" % (["%.3g" % v for v in vals], rc)
+                except ValueError:
+                    outcome = "rejected"
+                except Exception as ex:  # noqa
+                    outcome = "crash:%s" % type(ex).__name__
+                good = outcome in ("accepted-valid", "rejected") if want_ok is None else (outcome == ("accepted-valid" if want_ok else "rejected"))
+                ev.append({"e": "rel", "group": "C14:limit-of-admissible-ratio", "name": "%s -> %s" % (name, outcome), "c": "eq" if good else "lt", "want": "eq"})
+    return ev
+
+
 def site_accounting():
     """available nucleation sites decrease as precipitates occupy sites and are never negative (all five site types, competing phases)"""
     from . import kwn_drv as K
